@@ -105,6 +105,7 @@ type policyConnPool struct {
 
 	mu            sync.RWMutex
 	hostConnPools map[string]*hostConnPool
+	closed        bool
 }
 
 func connConfig(cfg *ClusterConfig) (*ConnConfig, error) {
@@ -174,6 +175,10 @@ func newPolicyConnPool(session *Session) *policyConnPool {
 func (p *policyConnPool) SetHosts(hosts []*HostInfo) {
 	p.mu.Lock()
 	defer p.mu.Unlock()
+
+	if p.closed {
+		return
+	}
 
 	toRemove := make(map[string]struct{})
 	for hostID := range p.hostConnPools {
@@ -247,6 +252,10 @@ func (p *policyConnPool) Close() {
 	p.mu.Lock()
 	defer p.mu.Unlock()
 
+	// no pool may be created from now on (a refresh, a node event or the reconnect
+	// ticker can still call addHost): nobody would close it
+	p.closed = true
+
 	// close the pools
 	for addr, pool := range p.hostConnPools {
 		delete(p.hostConnPools, addr)
@@ -257,6 +266,10 @@ func (p *policyConnPool) Close() {
 func (p *policyConnPool) addHost(host *HostInfo) {
 	hostID := host.HostID()
 	p.mu.Lock()
+	if p.closed {
+		p.mu.Unlock()
+		return
+	}
 	pool, ok := p.hostConnPools[hostID]
 	if !ok {
 		pool = newHostConnPool(
